@@ -349,6 +349,20 @@ def run(ctx):
                 return scn
             for sh in range(nshards):
                 jobs.append((make_long, real_op, ctx.rng.fork(), sh, True))
+        # `move` whose target path is already OCCUPIED by an unrelated file (every victim of the first group): the command
+        # must fail and leave both the victim and the occupant alone, under every fault as well
+        seed = ctx.rng.next()
+        for op in ["move", "move_copy"]:
+            def make_occ(suffix, seed=seed, op=op):
+                scn = gen_scenario(core.SplitMix64(seed), "occ_%s%s" % (op, suffix), ctx.scratch, small=True)
+                rels = sorted(rel for rel, _ in scn.groups[0]["members"])
+                for rel in rels[1:]:
+                    scn.extra.append(("file", os.path.join(scn.move_dir, os.path.join(scn.root, rel).lstrip("/")), b"occupant-of-" + rel.encode()))
+                scn.fake_mount = (op == "move_copy")
+                scn.occupied = True
+                return scn
+            for sh in range(nshards):
+                jobs.append((make_occ, "move", ctx.rng.fork(), sh, True))
         with ThreadPoolExecutor(max_workers=core.NCPU) as ex:
             res = list(ex.map(lambda j: explore(env, j[0], j[1], ctx.quick, j[2], errnos, j[3], nshards, light=j[4]), jobs))
         cases = [c for r in res for c in r]
@@ -367,6 +381,8 @@ def run(ctx):
         ctx.bump("operation", c.op + ("+simulated_ficlone" if c.sim else "") + ("_by_copy(other_mount)" if getattr(c.scn, "fake_mount", False) else ""))
         ctx.bump("fault", kind)
         ctx.bump("groups", len(c.scn.groups))
+        if getattr(c.scn, "occupied", False):
+            ctx.bump("move_target_occupied_by_an_unrelated_file", "move" + ("_by_copy" if getattr(c.scn, "fake_mount", False) else ""))
         if getattr(c.scn, "long_names", False):
             ctx.bump("victim_name_length_230_255_with_unrelated_siblings", c.op + ("_by_copy" if getattr(c.scn, "fake_mount", False) else ""))
             if any(x.get("env_fail") and x["res"] == "EOTHER" for x in c.calls):
